@@ -32,7 +32,7 @@ def common(it):
     for a in PI_AXIOMS:
         it.ctx.assume(a)
     it.ctx.assume(N >= 2)
-    it.ctx.assume(N % 2 == 0)
+    # (no parity assumption: the statements speak about any grid size)
     it.ctx.assume(wvl > 0)
     it.ctx.assume(d1 > 0)
     it.ctx.assume(d2 > 0)
@@ -146,11 +146,12 @@ def c11_obligations(chk):
                encoding="operator-words", summaries=SUMMARIES, frame=False)
 
 def fresnel_spec_word(it, U, dist, spacing_in):
-    """the statement's Fresnel integral, discretised for a POSITIVE distance: field at x2 = (k - N/2) * X, X = wvl*dist/(N*spacing_in) > 0,
-       U2[k] = 1/(i wvl dist) * exp(i kw x2^2/(2 dist)) * sum_n U[n] exp(i kw x1^2/(2 dist)) exp(-2 pi i (k-N/2)(n-N/2)/N) * spacing_in^2"""
+    """the statement's Fresnel integral, discretised for a POSITIVE distance on grids whose origin is sample h = floor(N/2) (the origin of the centred
+       transform, for even AND odd N): field at x2 = (k - h) * X, X = wvl*dist/(N*spacing_in) > 0,
+       U2[k] = 1/(i wvl dist) * exp(i kw x2^2/(2 dist)) * sum_n U[n] exp(i kw x1^2/(2 dist)) exp(-2 pi i (k-h)(n-h)/N) * spacing_in^2, x1 = (n - h) * spacing_in"""
     from aovc.values import Cx, r_div, s_div
     kw_ = 2 * PI / wvl
-    half = zr(N) / 2
+    half = zr(it.floordiv(N, 2))
     X = wvl * dist / (zr(N) * spacing_in)
 
     def chirp_in(idx):
@@ -189,7 +190,7 @@ def c11_orientation(chk):
         out = it.call_repo(OP, "lensAgainst", [U, wvl, d1, ff])
         # lens against the object cancels the input chirp: Fresnel integral of U * exp(-i kw r1^2/(2f))
         kw_ = 2 * PI / wvl
-        half = zr(N) / 2
+        half = zr(it.floordiv(N, 2))
         lensed = U.with_op(("phase", lambda idx: -kw_ / (2 * ff) * (((zr(idx[1]) - half) * d1) ** 2 + ((zr(idx[0]) - half) * d1) ** 2)))
         return it, out, fresnel_spec_word(it, lensed, ff, d1)
 
@@ -214,3 +215,38 @@ def c11_orientation(chk):
         return [("twoStep[m=1,z>0]=upright-chain.%s" % n, f) for n, f in opword.equal_obligations(it, two, chain, it.ctx.valid)]
     verify(chk, "orientation.twoStep[m=1]", OP + ":twoStepFresnel", run_two1, post_two1, clause="orientation", replay=rp({}), encoding="operator-words (kernel form)",
            summaries=SUMMARIES, frame=False)
+
+
+def angular_spectrum_spec_word(it, U, dist, d_in, d_out):
+    """the Fresnel integral between planes sampled at d_in and d_out = m d_in, origin on sample h = floor(N/2) of both grids, in its
+    convolution (angular-spectrum) form  U2(r2) = exp(i k (m-1) r2^2 / (2 m z)) * F^-1[ exp(-i pi wvl z f^2 / m) * F[ exp(i k (1-m) r1^2 / (2 z)) U1(r1) / m ] ],
+    with the transfer function sampled at the bins f = (j - h) / (N d_in) of the centred transform (Schmidt 2010, sec. 6.4: exact identity for the
+    continuous integral; no constant phase besides it)"""
+    kw_ = 2 * PI / wvl
+    h = zr(it.floordiv(N, 2))
+    m = d_out / d_in
+    df = 1 / (zr(N) * d_in)
+    r2 = lambda idx, s: ((zr(idx[1]) - h) * s) ** 2 + ((zr(idx[0]) - h) * s) ** 2
+    w = U.with_op(("phase", lambda idx: kw_ / 2 * (1 - m) / dist * r2(idx, d_in)))
+    w = spec_ft_word(it, w, d_in, [0, 1])
+    w = w.with_op(("phase", lambda idx: -PI * wvl * dist / m * r2(idx, df)))
+    w = spec_ft_word(it, w, df, [0, 1], inverse=True)
+    w = w.with_op(("phase", lambda idx: kw_ / 2 * (m - 1) / (m * dist) * r2(idx, d_out)))
+    return w.scaled(1 / m, it.ctx)
+
+
+def c11_fresnel_as(chk):
+    """angularSpectrum evaluates the Fresnel integral (convolution form) on grids centred on the transform's origin, for every N (even or odd),
+    magnification and distance of either sign -- phases compared exactly (mod 2 pi), not up to a constant"""
+    def run(it):
+        common(it)
+        it.ctx.assume(zz != 0)
+        U = Lin([N, N])
+        return it, it.call_repo(OP, "angularSpectrum", [U, wvl, d1, d2, zz]), angular_spectrum_spec_word(it, U, zz, d1, d2)
+
+    def post(pr):
+        it, out, spec = pr.value
+        if not isinstance(out, Lin):
+            return [("angularSpectrum=Fresnel-integral(convolution form)", z3.BoolVal(False))]
+        return [("angularSpectrum=Fresnel-integral(convolution form).%s" % n, f) for n, f in opword.equal_obligations(it, out, spec, it.ctx.valid)]
+    verify(chk, "fresnel.angularSpectrum", OP + ":angularSpectrum", run, post, clause="gaussian", replay=rp({}), encoding="operator-words (kernel form)", summaries=SUMMARIES, frame=False)
